@@ -219,6 +219,7 @@ reg("C49", "rv-probe", "exploration", "limit boundary probes (exactly L / L+1) +
     "Under random LimitParameters overrides, programs calibrated to produce exactly L and L+1 of each limited quantity (event count, log count, event size, log size, substate key size, value size, invoke payload size, call depth, heap bytes, track bytes; thresholds for the memory quantities found by bisection) run from the same snapshot: L must succeed and L+1 must fail with the matching TransactionLimitsError. Additionally every committed user transaction of the long mixed histories is checked against the configured limits (events/logs counts and sizes, written value sizes, deepest frame and largest invoke payload from hook H4).",
     _LEDGER_NOTE, "DESIGN.md §4 C49")
 CHECKS["C49"]["also"] = ["rv-engine"]
+CHECKS["C11"]["also"] = ["rv-engine"]
 CHECKS["C51"]["also"] = ["rv-probe"]
 CHECKS["C51"]["text"] += " A second workload (rv-probe) exercises locks taken by a custom component: field_lock, key-value entry locks (collection and owned store) and component royalty lock, followed by write/set/remove attempts in later transactions."
 CHECKS["C51"]["note"] = _LEDGER_NOTE
